@@ -16,7 +16,7 @@ SHARDS = {"quick": 8, "thorough": 16}
 RULE = (
     "case = transform class (Logit, Probit, Periodic, Affine, Identity, Composite with every on/off combination of "
     "periodic / bounded logit|probit / affine (periodic names listed in any order; optionally fitted before on data of another scale), FlowTransform) x namespace x width x bounds lower=m*10^a, width=10^b "
-    "(a,b in [-3,6], subject to the constructor's own representability check) x batch (1..64 rows, 1..5 columns) x points "
+    "(a,b in [-3,6], and occasionally all widths 1e+-80 (float64) / 1e+-10 (float32), subject to the constructor's own representability check) x batch (1..64 rows, 1..5 columns) x points "
     "placed by unit-interval coordinate u (uniform, log-spaced towards either bound down to the clipping margin, exactly "
     "eps and 1-eps, midpoint, and inside the margin where only finiteness is asserted; for wrapping any real up to 1e6 "
     "periods incl. exact multiples). Oracles: round trip, closed-form float64 log-Jacobian from the stored values, central "
@@ -37,8 +37,15 @@ CLASSES = ["logit", "probit", "periodic", "affine", "identity", "composite", "co
 
 
 @st.composite
-def _bounds(draw, d):
+def _bounds(draw, d, width="float64"):
     lo, hi = [], []
+    if draw(st.integers(0, 7)) == 0:
+        # every width extreme in the same direction: each is representable, their product is not
+        b = draw(st.sampled_from([-80, 80] if width == "float64" else [-10, 10]))
+        for _ in range(d):
+            lo.append(0.0 if b < 0 else draw(st.sampled_from([0.0, -1.0, 2.5])))
+            hi.append(lo[-1] + 10.0**b * draw(st.sampled_from([1.0, 2.0, 0.37])))
+        return lo, hi
     for _ in range(d):
         a = draw(st.integers(-3, 6))
         b = draw(st.integers(-3, 6))
@@ -66,7 +73,7 @@ def _case(draw):
     d = draw(st.integers(1, 5))
     rows = draw(st.one_of(st.integers(1, 4), st.integers(1, 64)))
     eps_clip = draw(st.sampled_from([1e-6, 1e-6, 1e-4, 1e-2] + ([1e-10] if width == "float64" else [])))
-    lo, hi = draw(_bounds(d))
+    lo, hi = draw(_bounds(d, width))
     case = {"cls": cls, "ns": ns, "width": width, "d": d, "rows": rows, "eps_clip": eps_clip, "lower": lo, "upper": hi}
     if cls in ("composite", "flowtransform"):
         kinds = draw(st.lists(st.sampled_from(["bounded", "bounded", "periodic", "free"] if cls == "composite" else ["bounded", "bounded", "free"]),
